@@ -309,3 +309,18 @@ package kapacitor
 //@   ensures called(addEvent) && emitCond(a) && result1 == nil ==> called(handleEvent)
 //@   ensures called(handleEvent) ==> callarg(event, 5) == a.history[a.idx] && callarg(event, 6) == p.Time()
 //@       && callarg(event, 7) == time.Duration(a.lastTriggered - a.firstTriggered) && a.lastTriggered == p.Time()
+
+// ---------------------------------------------------------------- where.go (C06)
+
+//@ func =(github.com/influxdata/kapacitor/tick/stateful.Expression).CopyReset
+//@   trusted
+//@   modifies nothing
+//@   ensures result != nil
+
+// A new group gets a group state object that did not exist before, with its own copy of the
+// expression.
+//@ func (*WhereNode).newGroup
+//@   props C06
+//@   requires n != nil && n.expression != nil
+//@   modifies nothing
+//@   ensures result != nil && fresh(result) && result.n == n && result.expr != nil
